@@ -1,29 +1,85 @@
 package main
 
 import (
-	"go/ast"
+	"fmt"
 	"go/token"
 	"go/types"
 	"sort"
 	"strings"
+
+	"golang.org/x/tools/go/ssa"
 )
 
 // R-LOOPSTACK (C01): the compiler's per-loop stacks are balanced.
 //
-// The compiler keeps, per enclosing loop, the list of break (and continue) jumps still to
-// be patched in slice-of-slice fields of struct compiler; a loop statement pushes an entry
-// and must pop it again before the statement is done (directly by truncating the field, or
-// through a helper whose body truncates it). An entry left behind makes a later `break` in
-// the enclosing loop be compiled against the wrong loop (for a for-in loop: as BreakForIn,
-// which aborts the program with the error "break").
+// The compiler keeps, per enclosing loop, the break (and continue) jumps still to be patched in stack-like slice
+// fields of struct compiler; a loop statement pushes an entry and must pop it again before the statement is done.
+// An entry left behind makes a later `break` in the enclosing loop be compiled against the wrong loop (for a
+// for-in loop: as BreakForIn, which aborts the program with the error "break").
+//
+// Decided on the SSA form by a balance analysis: for every function of the package the change of len(c.F) between
+// entry and exit is computed for each stack field F (a store of append(c.F, x1..xn) is +n, a store of
+// c.F[:len(c.F)-1] is -1, a call contributes its callee's change); the changes reaching a block over different edges
+// must agree, the changes at all returns must agree, and every function that is part of a recursion (stmt, stmts,
+// expr ...) or is an entry point must have change 0. Where the push and the pop are written (inline, in a helper, in
+// one helper for all loops, one stack or several) is immaterial.
 
 func init() {
-	register("R-LOOPSTACK", "compiler loop stacks balance: for every field of struct compiler that is pushed to with `c.F = append(c.F, …)` in a case clause of a compiler method, the same clause pops it exactly as often - by `c.F = c.F[:len(c.F)-1]` or by calling a helper method whose body does that once - in straight-line position (not under a condition), so no loop statement leaves an entry behind for the statements that follow it", ruleLoopStack)
+	register("R-LOOPSTACK", "compiler loop stacks balance: for every stack-like slice field F of struct compiler (element type a slice or struct, pushed with append or popped with [:len-1]), the net change of len(c.F) is the same on all paths to every block and return of every function (push +n, pop -1, calls by their callee's change), and is zero for every function on a recursion cycle and every function not called from within the package", ruleLoopStack)
+}
+
+type lsDelta map[string]int
+
+func (d lsDelta) clone() lsDelta {
+	n := lsDelta{}
+	for k, v := range d {
+		if v != 0 {
+			n[k] = v
+		}
+	}
+	return n
+}
+
+func (d lsDelta) eq(o lsDelta) bool {
+	for k, v := range d {
+		if o[k] != v {
+			return false
+		}
+	}
+	for k, v := range o {
+		if d[k] != v {
+			return false
+		}
+	}
+	return true
+}
+
+func (d lsDelta) String() string {
+	var ks []string
+	for k, v := range d {
+		if v != 0 {
+			ks = append(ks, fmt.Sprintf("%s%+d", k, v))
+		}
+	}
+	sort.Strings(ks)
+	if len(ks) == 0 {
+		return "0"
+	}
+	return strings.Join(ks, " ")
+}
+
+type lsSummary struct {
+	delta    lsDelta
+	ok       bool   // paths agree and every store was understood
+	problem  string // when !ok
+	pos      token.Pos
+	touches  bool
+	assumed0 bool // was assumed to be balanced while a caller on its cycle was analysed
 }
 
 func ruleLoopStack(c *Ctx) {
-	cp := c.pkg("internal/compiler")
-	if cp == nil {
+	sp := c.ssaPkg("internal/compiler")
+	if sp == nil {
 		c.undecided("anchor:compiler", token.NoPos, "package internal/compiler not loaded")
 		return
 	}
@@ -32,143 +88,293 @@ func ruleLoopStack(c *Ctx) {
 		c.undecided("anchor:compiler-struct", token.NoPos, "struct compiler not found")
 		return
 	}
-	// stack fields: slices of slices
-	stackField := map[string]bool{}
+	isCompilerPtr := func(t types.Type) bool {
+		p, ok := t.Underlying().(*types.Pointer)
+		return ok && isNamed(p.Elem(), modPath+"/internal/compiler", "compiler")
+	}
+	// candidate stack fields: slices whose elements are slices, structs or pointers
+	cand := map[string]bool{}
 	for i := 0; i < st.NumFields(); i++ {
 		if s, ok := st.Field(i).Type().Underlying().(*types.Slice); ok {
-			if _, ok := s.Elem().Underlying().(*types.Slice); ok {
-				stackField[st.Field(i).Name()] = true
+			switch s.Elem().Underlying().(type) {
+			case *types.Slice, *types.Struct, *types.Pointer:
+				cand[st.Field(i).Name()] = true
 			}
 		}
 	}
-	if len(stackField) == 0 {
-		c.undecided("anchor:loop-stacks", token.NoPos, "struct compiler has no slice-of-slice field (the break/continue stacks)")
-		return
+	// the field of *compiler an address denotes
+	fieldOf := func(addr ssa.Value) string {
+		fa, ok := addr.(*ssa.FieldAddr)
+		if !ok || !isCompilerPtr(fa.X.Type()) {
+			return ""
+		}
+		return fieldNameOf(deref(fa.X.Type()), fa.Field)
 	}
-	isPush := func(recv string, s ast.Stmt) string {
-		as, ok := s.(*ast.AssignStmt)
-		if !ok || len(as.Lhs) != 1 || len(as.Rhs) != 1 {
-			return ""
-		}
-		l, ok := as.Lhs[0].(*ast.SelectorExpr)
-		if !ok || !isIdent(l.X, recv) || !stackField[l.Sel.Name] {
-			return ""
-		}
-		call, ok := as.Rhs[0].(*ast.CallExpr)
-		if ok && isIdent(call.Fun, "append") && len(call.Args) == 2 && isSel(call.Args[0], recv, l.Sel.Name) {
-			return l.Sel.Name
+	loadOf := func(v ssa.Value) string {
+		if u, ok := v.(*ssa.UnOp); ok && u.Op == token.MUL {
+			return fieldOf(u.X)
 		}
 		return ""
 	}
-	isPop := func(recv string, s ast.Stmt, defs map[string]localDef) string {
-		as, ok := s.(*ast.AssignStmt)
-		if !ok || len(as.Lhs) != 1 || len(as.Rhs) != 1 {
-			return ""
-		}
-		l, ok := as.Lhs[0].(*ast.SelectorExpr)
-		if !ok || !isIdent(l.X, recv) || !stackField[l.Sel.Name] {
-			return ""
-		}
-		sl, ok := as.Rhs[0].(*ast.SliceExpr)
-		if ok && isSel(sl.X, recv, l.Sel.Name) && sl.Low == nil && sl.High != nil {
-			// the new length, with single-assignment locals expanded: len(c.F)-1
-			high := strings.Trim(render(sl.High, defs, 0), "()")
-			if strings.ReplaceAll(types.ExprString(sl.High), " ", "") == "len("+recv+"."+l.Sel.Name+")-1" || high == "len("+recv+"."+l.Sel.Name+")-1" {
-				return l.Sel.Name
-			}
-		}
-		return ""
-	}
-	// helper methods that pop once (top-level statement of their body)
-	helperPops := map[string]string{}
-	for _, fd := range c.allFuncDecls("internal/compiler") {
-		if fd.Body == nil || fd.Recv == nil || len(fd.Recv.List[0].Names) == 0 {
-			continue
-		}
-		recv := fd.Recv.List[0].Names[0].Name
-		var pops []string
-		defs := localDefs(fd)
-		for _, s := range fd.Body.List {
-			if f := isPop(recv, s, defs); f != "" {
-				pops = append(pops, f)
-			}
-		}
-		if len(pops) == 1 {
-			helperPops[fd.Name.Name] = pops[0]
-		}
-	}
-	nClauses := 0
-	for _, fd := range c.allFuncDecls("internal/compiler") {
-		if fd.Body == nil || fd.Recv == nil || len(fd.Recv.List[0].Names) == 0 {
-			continue
-		}
-		recv := fd.Recv.List[0].Names[0].Name
-		defs := localDefs(fd)
-		ast.Inspect(fd.Body, func(n ast.Node) bool {
-			cc, ok := n.(*ast.CaseClause)
-			if !ok {
-				return true
-			}
-			push := map[string]int{}
-			pop := map[string]int{}
-			condPop := map[string]int{}
-			for _, s := range cc.Body {
-				if f := isPush(recv, s); f != "" {
-					push[f]++
-					continue
+	// classify a store to a candidate field: its effect on the length
+	effect := func(f string, v ssa.Value) (int, bool) {
+		switch x := v.(type) {
+		case *ssa.Call:
+			if b, ok := x.Call.Value.(*ssa.Builtin); ok && b.Name() == "append" && len(x.Call.Args) == 2 && loadOf(x.Call.Args[0]) == f {
+				if sl, ok := x.Call.Args[1].(*ssa.Slice); ok && sl.Low == nil && sl.High == nil {
+					if p, ok := sl.X.Type().Underlying().(*types.Pointer); ok {
+						if arr, ok := p.Elem().Underlying().(*types.Array); ok {
+							return int(arr.Len()), true
+						}
+					}
 				}
-				if f := isPop(recv, s, defs); f != "" {
-					pop[f]++
-					continue
-				}
-				if es, ok := s.(*ast.ExprStmt); ok {
-					if call, ok := es.X.(*ast.CallExpr); ok {
-						if se, ok := call.Fun.(*ast.SelectorExpr); ok && isIdent(se.X, recv) {
-							if f, ok := helperPops[se.Sel.Name]; ok {
-								pop[f]++
-								continue
+			}
+		case *ssa.Slice:
+			if loadOf(x.X) == f && x.Low == nil && x.Max == nil {
+				if bo, ok := x.High.(*ssa.BinOp); ok && bo.Op == token.SUB {
+					if k, ok := bo.Y.(*ssa.Const); ok && k.Value != nil && k.Value.ExactString() == "1" {
+						if call, ok := bo.X.(*ssa.Call); ok {
+							if b, ok := call.Call.Value.(*ssa.Builtin); ok && b.Name() == "len" && loadOf(call.Call.Args[0]) == f {
+								return -1, true
 							}
 						}
 					}
 				}
-				// pushes or pops nested under a condition / loop inside the clause
-				ast.Inspect(s, func(m ast.Node) bool {
-					if _, isCC := m.(*ast.CaseClause); isCC {
-						return false
+			}
+		case *ssa.UnOp:
+			if loadOf(x) == f {
+				return 0, true
+			}
+		}
+		return 0, false
+	}
+	var fns []*ssa.Function
+	seenFn := map[*ssa.Function]bool{}
+	var addFn func(fn *ssa.Function)
+	addFn = func(fn *ssa.Function) {
+		if fn == nil || seenFn[fn] || len(fn.Blocks) == 0 || fn.Synthetic != "" {
+			return
+		}
+		seenFn[fn] = true
+		fns = append(fns, fn)
+		for _, a := range fn.AnonFuncs {
+			addFn(a)
+		}
+	}
+	for _, fn := range c.srcFuncs("internal/compiler") {
+		addFn(fn)
+	}
+	sort.Slice(fns, func(i, j int) bool { return fnKey(fns[i]) < fnKey(fns[j]) })
+	// stack fields: candidates with at least one push or pop store
+	stack := map[string]bool{}
+	for _, fn := range fns {
+		allInstrs(fn, func(in ssa.Instruction) {
+			if s, ok := in.(*ssa.Store); ok {
+				if f := fieldOf(s.Addr); cand[f] {
+					if n, ok := effect(f, s.Val); ok && n != 0 {
+						stack[f] = true
 					}
-					if ms, ok := m.(ast.Stmt); ok {
-						if f := isPush(recv, ms); f != "" {
-							push[f]++
-							condPop[f] += 0
-						}
-						if f := isPop(recv, ms, defs); f != "" {
-							condPop[f]++
-						}
-					}
-					return true
-				})
+				}
 			}
-			if len(push) == 0 {
-				return true
-			}
-			nClauses++
-			var fs []string
-			for f := range push {
-				fs = append(fs, f)
-			}
-			sort.Strings(fs)
-			label := "default"
-			if len(cc.List) > 0 {
-				label = types.ExprString(cc.List[0])
-			}
-			for _, f := range fs {
-				key := "loopstack:" + declName(fd) + ":" + label + ":" + f
-				c.check(push[f] == pop[f] && condPop[f] == 0, key, cc.Pos(),
-					"pushed "+itoa(int64(push[f]))+"x and popped "+itoa(int64(pop[f]))+"x in straight-line position",
-					"the clause for "+label+" pushes an entry on c."+f+" "+itoa(int64(push[f]))+" time(s) but pops it "+itoa(int64(pop[f]))+" time(s) unconditionally (conditionally: "+itoa(int64(condPop[f]))+"): the entry left behind (or taken from the enclosing loop) makes a later break/continue be compiled against the wrong loop")
-			}
-			return true
 		})
 	}
-	c.atLeast("loop clauses that push a loop stack", nClauses, 4)
+	if len(stack) == 0 {
+		c.undecided("anchor:loop-stacks", token.NoPos, "struct compiler has no stack-like slice field that is pushed or popped (the break/continue stacks)")
+		return
+	}
+	var stackNames []string
+	for f := range stack {
+		stackNames = append(stackNames, f)
+	}
+	sort.Strings(stackNames)
+
+	// direct touch and call edges
+	direct := map[*ssa.Function]bool{}
+	callees := map[*ssa.Function][]*ssa.Function{}
+	dynCall := map[*ssa.Function]bool{}
+	calledInPkg := map[*ssa.Function]bool{}
+	for _, fn := range fns {
+		allInstrs(fn, func(in ssa.Instruction) {
+			if s, ok := in.(*ssa.Store); ok && stack[fieldOf(s.Addr)] {
+				direct[fn] = true
+			}
+			if ci, ok := in.(ssa.CallInstruction); ok {
+				cc := ci.Common()
+				if g := cc.StaticCallee(); g != nil {
+					if seenFn[g] {
+						callees[fn] = append(callees[fn], g)
+						calledInPkg[g] = true
+					}
+				} else if _, isB := cc.Value.(*ssa.Builtin); !isB && !cc.IsInvoke() {
+					dynCall[fn] = true
+				}
+			}
+			// a function literal is used where it is made
+			if mc, ok := in.(*ssa.MakeClosure); ok {
+				if g, ok := mc.Fn.(*ssa.Function); ok {
+					calledInPkg[g] = true
+				}
+			}
+		})
+	}
+	touches := map[*ssa.Function]bool{}
+	for changed := true; changed; {
+		changed = false
+		for _, fn := range fns {
+			if touches[fn] {
+				continue
+			}
+			t := direct[fn]
+			for _, g := range callees[fn] {
+				if touches[g] {
+					t = true
+				}
+			}
+			if t {
+				touches[fn] = true
+				changed = true
+			}
+		}
+	}
+	// function values called dynamically (closures handed to helpers): balanced only if no function literal of the
+	// package touches a stack; otherwise such calls are not decided here
+	anonTouches := false
+	for _, fn := range fns {
+		if fn.Parent() != nil && touches[fn] {
+			anonTouches = true
+		}
+	}
+
+	assumedZero := map[*ssa.Function]bool{}
+	sums := map[*ssa.Function]*lsSummary{}
+	inProgress := map[*ssa.Function]bool{}
+	var summarise func(fn *ssa.Function) *lsSummary
+	summarise = func(fn *ssa.Function) *lsSummary {
+		if s, ok := sums[fn]; ok {
+			return s
+		}
+		if !touches[fn] {
+			s := &lsSummary{delta: lsDelta{}, ok: true}
+			sums[fn] = s
+			return s
+		}
+		inProgress[fn] = true
+		s := &lsSummary{delta: lsDelta{}, ok: true, touches: true, pos: fn.Pos()}
+		fail := func(pos token.Pos, format string, args ...interface{}) {
+			if s.ok {
+				s.ok = false
+				s.problem = fmt.Sprintf(format, args...)
+				s.pos = posOr(pos, fn.Pos())
+			}
+		}
+		in := map[*ssa.BasicBlock]lsDelta{fn.Blocks[0]: {}}
+		work := []*ssa.BasicBlock{fn.Blocks[0]}
+		var retDelta lsDelta
+		for len(work) > 0 && s.ok {
+			b := work[0]
+			work = work[1:]
+			cur := in[b].clone()
+			for _, instr := range b.Instrs {
+				switch x := instr.(type) {
+				case *ssa.Store:
+					if f := fieldOf(x.Addr); stack[f] {
+						n, ok := effect(f, x.Val)
+						if !ok {
+							fail(x.Pos(), "a store to c.%s that is neither a push (append), a pop ([:len-1]) nor the field itself", f)
+						}
+						cur[f] += n
+					}
+				case ssa.CallInstruction:
+					cc := x.Common()
+					if g := cc.StaticCallee(); g != nil && seenFn[g] && touches[g] {
+						if _, isGo := instr.(*ssa.Go); isGo {
+							fail(instr.Pos(), "a function that changes a loop stack is started as a goroutine")
+							break
+						}
+						if _, isDefer := instr.(*ssa.Defer); isDefer {
+							fail(instr.Pos(), "a function that changes a loop stack is deferred")
+							break
+						}
+						if inProgress[g] && sums[g] == nil {
+							// recursion: assume the callee balanced (checked when it is done)
+							assumedZero[g] = true
+							break
+						}
+						gs := summarise(g)
+						if !gs.ok {
+							fail(instr.Pos(), "calls %s, whose effect on the loop stacks is not decided (%s)", fnKey(g), gs.problem)
+							break
+						}
+						for f, n := range gs.delta {
+							cur[f] += n
+						}
+					} else if g == nil && anonTouches {
+						if _, isB := cc.Value.(*ssa.Builtin); !isB && !cc.IsInvoke() {
+							fail(instr.Pos(), "a call through a function value, while some function literal of the package changes a loop stack")
+						}
+					}
+				case *ssa.Return:
+					if retDelta == nil {
+						retDelta = cur.clone()
+					} else if !retDelta.eq(cur) {
+						fail(x.Pos(), "the function returns with different changes of the loop stacks on different paths: %s and %s", retDelta, cur)
+					}
+				}
+			}
+			for _, su := range b.Succs {
+				if old, ok := in[su]; ok {
+					if !old.eq(cur) {
+						p := token.NoPos
+						for _, i2 := range su.Instrs {
+							if i2.Pos().IsValid() {
+								p = i2.Pos()
+								break
+							}
+						}
+						fail(p, "two paths reach the same point with different changes of the loop stacks: %s and %s - an entry is pushed without being popped (or popped without having been pushed) on one of them", old, cur)
+					}
+					continue
+				}
+				in[su] = cur.clone()
+				work = append(work, su)
+			}
+		}
+		if retDelta != nil {
+			s.delta = retDelta
+		}
+		delete(inProgress, fn)
+		sums[fn] = s
+		return s
+	}
+	for _, fn := range fns {
+		summarise(fn)
+	}
+	n := 0
+	for _, fn := range fns {
+		s := sums[fn]
+		if s == nil || !s.touches {
+			continue
+		}
+		n++
+		key := "loopstack:" + fnKey(fn)
+		mustZero := assumedZero[fn] || !calledInPkg[fn]
+		switch {
+		case !s.ok:
+			if strings.Contains(s.problem, "not decided") || strings.Contains(s.problem, "function value") || strings.Contains(s.problem, "neither a push") {
+				c.undecided(key, s.pos, "%s: %s", fnKey(fn), s.problem)
+			} else {
+				c.bad(key, s.pos, "%s: %s; the entry left behind (or taken from the enclosing loop) makes a later break/continue be compiled against the wrong loop", fnKey(fn), s.problem)
+			}
+		case mustZero && len(s.delta.clone()) != 0:
+			c.bad(key, fn.Pos(), "%s changes the loop stacks by %s although it compiles complete statements (it is recursive or an entry point): the entry left behind (or taken from the enclosing loop) makes a later break/continue be compiled against the wrong loop", fnKey(fn), s.delta)
+		default:
+			why := "a helper, accounted for at its call sites"
+			if mustZero {
+				why = "balanced, as required of a recursive function or entry point"
+			}
+			c.ok(key, fn.Pos(), "net change of the loop stacks (%s) on every path: %s (%s)", strings.Join(stackNames, ", "), s.delta, why)
+		}
+	}
+	c.atLeast("loop stack fields", len(stack), 1)
+	c.atLeast("functions that change a loop stack", n, 3)
 }
